@@ -30,6 +30,7 @@ type Site struct {
 	Func string `json:"func"`
 	Kind string `json:"kind"` // stmt | entry
 	Pkg  string `json:"pkg"`
+	Hot  bool   `json:"hot,omitempty"` // the statement contains an atomic / sync operation
 }
 
 type Result struct {
@@ -400,6 +401,10 @@ func (in *instrumenter) rewriteFile(p *pkgInfo, f *ast.File, name string, write 
 				continue
 			}
 			id := newSite(s.Pos(), curFunc(), "stmt")
+			if in.hasSyncOp(p, s) {
+				in.res.Sites[len(in.res.Sites)-1].Hot = true
+				in.res.Seams["hot_sites"]++
+			}
 			add(off(s.Pos()), 0, fmt.Sprintf("%s.Y(%d);", rt, id))
 		}
 	}
@@ -705,4 +710,54 @@ func recvName(e ast.Expr) string {
 		return recvName(x.X)
 	}
 	return "?"
+}
+
+// hasSyncOp reports whether a statement (not counting nested function literals
+// and nested blocks, which have yield points of their own) calls a method of a
+// sync/atomic or sync type, or a sync/atomic function. Windows in lock-free and
+// lock-based code open and close at such statements.
+func (in *instrumenter) hasSyncOp(p *pkgInfo, s ast.Stmt) bool {
+	found := false
+	var root ast.Node = s
+	ast.Inspect(s, func(n ast.Node) bool {
+		if found || n == nil {
+			return false
+		}
+		switch x := n.(type) {
+		case *ast.FuncLit:
+			return false
+		case *ast.BlockStmt:
+			if ast.Node(x) != root {
+				return false
+			}
+		case *ast.CallExpr:
+			sel, ok := x.Fun.(*ast.SelectorExpr)
+			if !ok {
+				return true
+			}
+			if id, ok := sel.X.(*ast.Ident); ok {
+				if obj, ok := p.info.Uses[id]; ok {
+					if pn, ok := obj.(*types.PkgName); ok && pn.Imported().Path() == "sync/atomic" {
+						found = true
+						return false
+					}
+				}
+			}
+			if tv, ok := p.info.Types[sel.X]; ok && tv.Type != nil {
+				t := tv.Type
+				if pt, ok := t.(*types.Pointer); ok {
+					t = pt.Elem()
+				}
+				if nt, ok := t.(*types.Named); ok && nt.Obj() != nil && nt.Obj().Pkg() != nil {
+					switch nt.Obj().Pkg().Path() {
+					case "sync/atomic", "sync":
+						found = true
+						return false
+					}
+				}
+			}
+		}
+		return true
+	})
+	return found
 }
